@@ -48,6 +48,12 @@ fn check_f32_item(r: &Report, sub: &str, b: u32) -> u64 {
     if a.is_some() {
         r.fail(sub, None, json!({"item_hex": hex(&buf[..5]), "accessor": "f16()"}), "a single-precision item was accepted by the half-precision accessor");
     }
+    // the Decode impls are their own code path (a row of a macro table): they must agree with the accessors
+    let t32 = minicbor::decode::<f32>(&buf[..5]).ok().map(|x| x.to_bits());
+    let t64 = minicbor::decode::<f64>(&buf[..5]).ok().map(|x| x.to_bits());
+    if t32 != f || !eq64(t64, f32_to_f64(b)) {
+        r.fail(sub, None, json!({"item_hex": hex(&buf[..5]), "call": "decode::<f32> / decode::<f64>"}), format!("returned {:?} / {:?}; the accessors return {:?} / {:?}", t32.map(|x| format!("{:08x}", x)), t64.map(|x| format!("{:016x}", x)), f.map(|x| format!("{:08x}", x)), g.map(|x| format!("{:016x}", x))));
+    }
     // encode: f32() writes the identical pattern
     let mut out = [0u8; 8];
     let used = {
@@ -269,6 +275,14 @@ pub fn run(r: &Report) {
                     }
                     if a.is_some() || f.is_some() {
                         r.fail(sub, None, json!({"item_hex": hex(&buf[..9])}), format!("a double-precision item was accepted by a narrower accessor: f16()={:?} f32()={:?}", a, f));
+                    }
+                    // the Decode impls and the serde bridge: same value for f64, refusal for f32
+                    let t64 = minicbor::decode::<f64>(&buf[..9]).ok().map(|x| x.to_bits());
+                    let t32 = minicbor::decode::<f32>(&buf[..9]).ok().map(|x| x.to_bits());
+                    let s64 = minicbor_serde::from_slice::<f64>(&buf[..9]).ok().map(|x| x.to_bits());
+                    let s32 = minicbor_serde::from_slice::<f32>(&buf[..9]).ok().map(|x| x.to_bits());
+                    if t64 != Some(b) || s64 != Some(b) || t32.is_some() || s32.is_some() {
+                        r.fail(sub, None, json!({"item_hex": hex(&buf[..9]), "call": "decode::<f64 / f32>, serde from_slice::<f64 / f32>"}), format!("returned {:?} / {:?} / {:?} / {:?}; a double item denotes exactly its pattern as f64 and is never an f32", t64.map(|x| format!("{:016x}", x)), t32.map(|x| format!("{:08x}", x)), s64.map(|x| format!("{:016x}", x)), s32.map(|x| format!("{:08x}", x))));
                     }
                     let out = {
                         let mut o = [0u8; 12];
